@@ -76,6 +76,11 @@ def apply_case(fp, cls, names):
     for n in names:
         if n in ("valid", "valid_node"):
             continue
+        if n == "cycle b->a (valid for MinErrorFlow)":
+            if cls != "MinErrorFlow":
+                return None
+            kw["G"].add_edge("b", "a", flow=1, length=1)
+            continue
         if n.startswith("allIgnored"):
             if "elements_to_ignore" not in K.signature(fp, cls):
                 return None
@@ -111,7 +116,25 @@ def describe_obs(o):
     return "accepted and solved" if o.get("solved") else "accepted, solve() returned False without any error (silently unsolved)"
 
 
-def case(ctx, cls, names, suite, single_ok=None):
+NODE_MODE_VARIANTS = ["node a -> 1", "empty graph", "edge t->s", "pure cycle a->b->c->a", "weight_type=str", "k=0", "k=-1",
+                      "k=2.5", "k='2'", "additional_starts=['zz']", "additional_ends=['zz']", "additional_starts=[7]",
+                      "additional_ends=[None]"]
+
+
+def node_singles(ctx, cls):
+    """the single violations that mean the same for node-weighted input, on node-weighted input (the validation of the
+    node branch is separate code in every class); MinErrorFlow also on a graph with a cycle, where it builds no s-t graph.
+    Oracle only: the guard table describes the edge branch."""
+    have = {n for _, n, _, _ in K.variants(ctx.fp, cls)}
+    for n in NODE_MODE_VARIANTS:
+        if n in have:
+            case(ctx, cls, ["valid_node", n], "C19.node_single", validate=False)
+    if cls == "MinErrorFlow":
+        for n in ("additional_starts=['zz']", "additional_ends=['zz']", "additional_starts=[7]", "additional_ends=[None]"):
+            case(ctx, cls, ["valid_node", "cycle b->a (valid for MinErrorFlow)", n], "C19.node_single", validate=False)
+
+
+def case(ctx, cls, names, suite, single_ok=None, validate=True):
     fp = ctx.fp
     r = apply_case(fp, cls, names)
     if r is None:
@@ -143,7 +166,7 @@ def case(ctx, cls, names, suite, single_ok=None):
     if v:
         report(ctx, v["what"], v["input"], site=v["site"])
     # ---------------------------------------------------------------- translator validation
-    if ctx.driver is not None:
+    if ctx.driver is not None and validate:
         ans = ctx.driver.call({"op": "k4.outcome", "cls": cls, "flags": sorted(set(flags))})
         ctx.rep.cov["traces_validated_against_impl"] += 1
         pred = ans["outcome"]
@@ -272,6 +295,8 @@ def run(ctx):
                 continue
             case(ctx, cls, [sp], "C19.base")
         ok = singles(ctx, cls)
+        if cls in K.GRAPH_MODELS:
+            node_singles(ctx, cls)
         pairs(ctx, cls, ok, limit=None if thorough else 120)
         triples(ctx, cls, ok, limit=150 if thorough else 15)
         if ctx.driver is not None:
